@@ -373,6 +373,19 @@ func (w *World) Exec(a Action) {
 		}
 	case "delegate", "undelegate", "redelegate", "claim":
 		w.execUserMsg(a)
+	case "drain":
+		// every position of the asset undelegates its whole reported balance (two passes: a first
+		// attempt can fail on rounding and succeed once others have left)
+		for pass := 0; pass < 2; pass++ {
+			for _, p := range w.positions() {
+				if p.d != a.D || w.Halted {
+					continue
+				}
+				if bal := w.balanceOf(p); bal.IsPositive() {
+					w.execUserMsg(Action{Kind: "undelegate", U: p.u, V: p.v, D: p.d, Amt: bal.String()})
+				}
+			}
+		}
 	case "create", "update", "delete", "params":
 		w.execGov(a)
 	case "slashhook":
